@@ -109,20 +109,39 @@ func init() {
 			kind  int // 0 generic, 1 buffer
 			list  bool
 		}
-		var jobs []job
+		// jobs are (template, history) pairs, kept as groups and resolved by index (the thorough tier has tens of millions)
+		type group struct {
+			tmpl  job
+			hists [][]stream.Ev
+		}
+		var groups []group
+		addJob := func(j job) {
+			if n := len(groups); n > 0 && groups[n-1].tmpl.name == j.name {
+				groups[n-1].hists = append(groups[n-1].hists, j.evs)
+				return
+			}
+			t := j
+			t.evs = nil
+			groups = append(groups, group{t, [][]stream.Ev{j.evs}})
+		}
 		shortLen := r.Pick(3, 4)
+		var histShort [][]stream.Ev
+		for _, h := range hist {
+			if len(h) <= shortLen {
+				histShort = append(histShort, h)
+			}
+		}
 		for _, s := range specs {
 			stateful := strings.Contains(s.name, "group_by") || strings.Contains(s.name, "buffer") || strings.Contains(s.name, "distinct")
-			for _, h := range hist {
-				if !stateful && len(h) > shortLen {
-					continue
-				}
-				k := 0
-				if s.name == "event_time_buffer" {
-					k = 1
-				}
-				jobs = append(jobs, job{s.name, s.build, h, k, s.listInput})
+			k := 0
+			if s.name == "event_time_buffer" {
+				k = 1
 			}
+			g := group{job{s.name, s.build, nil, k, s.listInput}, hist}
+			if !stateful {
+				g.hists = histShort
+			}
+			groups = append(groups, g)
 		}
 		// TVFs and the pipeline: rows [k, ts]
 		tsOpts := stream.ScriptOpts{MaxLen: r.Pick(4, 5), Times: []int{1, 2, 3, 4}}
@@ -133,8 +152,8 @@ func init() {
 		rawOpts := tsOpts
 		rawOpts.RecTimes = []int{0}
 		for _, h := range stream.GenScripts(rawOpts) {
-			jobs = append(jobs, job{"max_diff_watermark(1s)", func(src execution.Node) execution.Node { return mustNode(mkMaxDiff(src, time.Second, nil)) }, h, 0, false})
-			jobs = append(jobs, job{"pipeline max_diff_watermark->tumble(2s)->group_by(window_end,k) ON WATERMARK", func(src execution.Node) execution.Node {
+			addJob(job{"max_diff_watermark(1s)", func(src execution.Node) execution.Node { return mustNode(mkMaxDiff(src, time.Second, nil)) }, h, 0, false})
+			addJob(job{"pipeline max_diff_watermark->tumble(2s)->group_by(window_end,k) ON WATERMARK", func(src execution.Node) execution.Node {
 				md := mustNode(mkMaxDiff(src, time.Second, nil))
 				tb := mustNode(mkTumble(md, 2*time.Second, nil))
 				return nodes.NewCustomTriggerGroupBy([]func() nodes.Aggregate{aggregates.NewCountPrototype()}, []execution.Expression{constInt(1)},
@@ -163,17 +182,29 @@ func init() {
 			}
 			rec(st{})
 			for _, h := range hs {
-				jobs = append(jobs, job{"tumble(2s)", func(src execution.Node) execution.Node { return mustNode(mkTumble(src, 2*time.Second, nil)) }, h, 0, false})
+				addJob(job{"tumble(2s)", func(src execution.Node) execution.Node { return mustNode(mkTumble(src, 2*time.Second, nil)) }, h, 0, false})
 			}
 		}
-		if r.ShardChild() {
-			jobs = nil // the single-input part is done once, by the parent process
+		nJobs := 0
+		for _, g := range groups {
+			nJobs += len(g.hists)
 		}
-		enum.Parallel(len(jobs), func(i int) {
+		if r.ShardChild() {
+			nJobs = 0 // the single-input part is done once, by the parent process
+		}
+		enum.Parallel(nJobs, func(i int) {
 			if r.TimeUp() {
 				return
 			}
-			j := jobs[i]
+			var j job
+			for gi, off := 0, i; ; gi++ {
+				if off < len(groups[gi].hists) {
+					j = groups[gi].tmpl
+					j.evs = groups[gi].hists[off]
+					break
+				}
+				off -= len(groups[gi].hists)
+			}
 			if j.list {
 				j.evs = listify(j.evs)
 			}
